@@ -131,13 +131,13 @@ LineTokens(l, mode0, contd) ==
 MaxLen(toks) == IF toks = <<>> THEN 0 ELSE LET k == CHOOSE k \in DOMAIN toks : \A j \in DOMAIN toks : Len(toks[j]) <= Len(toks[k])
                                            IN Len(toks[k])
 \* "ok" | "long" (a line of several breakable tokens exceeds W) |
-\* "near" (the line holds a token t with W - Over < Len(t) <= W: it is not longer than W, so the clause applies, but it
-\*         does not fit together with continuation markers of Over characters) -- both violate the property; the
-\*         distinction only serves the normal-form keys
+\* "near" (the longest token t on the line is not longer than W, so the clause applies, but t does not fit on a line of
+\*         its own behind the line's indentation and between continuation markers `& ` .. ` &` (Over characters)) --
+\* both violate the property; the distinction only serves the normal-form keys
 Clause3(l, W, Over, cm, mx) ==
   IF cm > 0 /\ LastNB(l, cm - 1) <= W THEN "ok"            \* only the trailing comment is longer
   ELSE IF mx > W THEN "ok"                                 \* a single unbreakable token is longer
-  ELSE IF mx + Over > W THEN "near"
+  ELSE IF mx + Over + (FirstNB(l, 1) - 1) > W THEN "near"
   ELSE "long"
 LineClause(l, W, Over, mode0, contd) ==
   IF Len(l) <= W THEN "ok"
@@ -240,7 +240,7 @@ Accept1b(want, x, rd, got, d, lone) ==
 Accept1(want, x) ==
   Pick({ Pick({ Pick({ Accept1b(want, x, rd, got, d, LoneAmp(x.out, 1)) : d \in {FirstDiff(want, got)} }) :
                   got \in {Flatten(rd.stmts, 1, <<>>)} }) :
-           rd \in {ReadChecked(x.out, x.width, Len(x.cont0) + Len(x.cont1))} })
+           rd \in {ReadChecked(x.out, x.width, 4)} })
 
 (* -------------------------------- a reference wrapper (design-level check) *)
 \* Greedy wrapping of a token sequence into lines of width W with continuation strings c0 (end of line) and c1
